@@ -18,6 +18,7 @@ import json
 from harness.props import _joins as J
 
 PID = "C10"
+TRANSLATE = ["EqJoinIndex.v"]    # translator tie: the right-side hash index loops regenerated from /repo (coq/gen_proofs/EqJoinIndex.v)
 PRELUDE = J.PRELUDE_FMT % PID
 FAILING = "C10.failing"
 SHARD = 300
